@@ -48,6 +48,7 @@ def tensor_attr(it, tv, attr, node):
     if attr in ("dtype", "device", "layout"):
         u = VUnknown("%s(T%d)" % (attr, tv.obj.dtype_root().id), attr)
         u.not_none = True
+        u.of_obj = tv.obj
         return u
     if attr == "ndim":
         return VConst(tv.rank) if tv.rank is not None else VNum("int", T.sym("ndim?"), nonneg=True)
@@ -159,6 +160,38 @@ def tensor_method(it, tv, name, args, kwargs, node):
         r.obj.may_alias.add(tv.obj)
         r.obj.maybe_copy = True
         return r
+    if name in ("to", "double", "float", "type_as", "type") and kind == "tensor":
+        # float width: only when both the source's and the target's widths are known and differ is a conversion certain
+        from .ops_ext import dtype_width
+
+        src = tv.obj.float_width()
+        if src is None and tv.obj.valkind not in ("bool", "index", "perm", "str", "bern"):
+            src = 64 if name == "float" else None  # an explicit .float() of a value whose width was not tracked: the library's data are float64
+        dst = None
+        if name == "double":
+            dst = 64
+        elif name == "float":
+            dst = 32
+        else:
+            for a in list(args) + [kwargs.get("dtype"), kwargs.get("other")]:
+                if isinstance(a, VTens):
+                    dst = a.obj.float_width() or (64 if src == 32 and a.obj.valkind not in ("bool", "index", "perm", "str") else None)
+                elif a is not None and dtype_width(a) in (32, 64):
+                    dst = dtype_width(a)
+        tgt = next((a for a in list(args) + [kwargs.get("other")] if isinstance(a, VTens)), None)
+        if src == 32 and dst is None and tgt is not None and tv.obj.origin == "fresh" and not tv.view:
+            # torch.zeros(...).to(x): the result has x's dtype, whatever that is (followed through dtype_src)
+            r = it.fresh(t, shape, kind, node)
+            r.obj.valkind = tv.obj.valkind
+            r.obj.dtype_src = tgt.obj
+            return r
+        if src in (32, 64) and dst in (32, 64) and src != dst:
+            r = it.fresh(T.app("f32", t) if (dst == 32 and t is not None) else t, shape, kind, node)
+            r.obj.valkind = tv.obj.valkind
+            r.obj.fw = dst
+            if dst == 32:
+                it.narrowings.append((it.site(node), "a float64 tensor is converted to float32 (.%s)" % name, tv.obj))
+            return r
     if name in IDENTITY or (name == "float" and kind == "tensor") or name == "type":
         return tv  # torch returns self when no conversion is needed: may be the very same object
     if name == "clone" or name == "copy":
@@ -170,6 +203,7 @@ def tensor_method(it, tv, name, args, kwargs, node):
         r = it.fresh(t, shape, "ndarray", node)
         r.obj.may_alias.add(tv.obj)
         r.obj.valkind = tv.obj.valkind
+        r.obj.dtype_src = tv.obj
         return r
     if name in ("item", "tolist"):
         if name == "item":
@@ -387,7 +421,7 @@ def tensor_method(it, tv, name, args, kwargs, node):
     if base in BINARY and args:
         r = tensor_binop(it, BINARY[base], tv, args[0], node)
         if inplace:
-            it.write(tv, r.term, node, name)
+            it.write(tv, r.term, node, name, src=args[0] if isinstance(args[0], VTens) else None)
             return tv
         return r
     if name == "matmul" or name == "mm" or name == "dot" or name == "mv":
@@ -423,8 +457,10 @@ def tensor_method(it, tv, name, args, kwargs, node):
     if name == "fill_" and args and num_term(args[0]) is not None:
         it.write(tv, num_term(args[0]), node, name)
         return tv
+    if name == "copy_" and args and isinstance(args[0], VUnknown) and tv.obj.float_width() == 32 and tv.obj.origin == "fresh":
+        it.narrowings.append((it.site(node), "data of untracked width (the library's tensors are float64) are copied into a float32 tensor created without dtype (copy_)", tv.obj))
     if name == "copy_" and args and isinstance(args[0], VTens):
-        it.write(tv, args[0].term, node, name)
+        it.write(tv, args[0].term, node, name, src=args[0])
         return tv
     if inplace:
         # any other in-place method: a data write with an opaque result
